@@ -578,6 +578,12 @@ Proof.
     destruct (nth_error (sorted_names e) i) as [s|] eqn:E; [|congruence]. exists s. apply map_get_nth, E.
 Qed.
 
+Lemma filter_none {A} (p : A -> bool) l : (forall x, In x l -> p x = false) -> filter p l = [].
+Proof.
+  induction l as [|a l IH]; intros H; [reflexivity|]. cbn [filter].
+  rewrite (H a (or_introl eq_refl)). apply IH. intros x Hx. apply H. right; exact Hx.
+Qed.
+
 (* rank, said directly: the index is the number of names of the expression that are smaller *)
 Lemma sorted_rank v : StronglySorted name_lt v -> forall i s, nth_error v i = Some s ->
   length (filter (fun t => name_ltb t s) v) = i.
@@ -585,7 +591,7 @@ Proof.
   induction 1 as [|x v Hs IH Hall]; intros i s Hi; [destruct i; discriminate|].
   rewrite Forall_forall in Hall. cbn [filter]. destruct i as [|i].
   - cbn in Hi. inversion Hi; subst. unfold name_ltb at 1. rewrite name_cmp_refl.
-    rewrite (proj2 (filter_nil_iff _ v)); [reflexivity|].
+    rewrite filter_none; [reflexivity|].
     intros t Ht. unfold name_ltb. rewrite name_cmp_antisym. rewrite (Hall _ Ht). reflexivity.
   - cbn in Hi. assert (Hx : name_lt x s) by (apply Hall; eapply nth_error_In, Hi).
     unfold name_ltb at 1. rewrite Hx. cbn [length]. f_equal. apply IH, Hi.
